@@ -90,6 +90,21 @@ def handleC16 (j : Json) : Except String Json := do
         ("pT", jBools m.st.pT), ("pX", jBools m.st.pX)])).toArray),
     ("cap", Json.num (cap c : Nat))]
 
-def opsC16 : List (String × (Json → Except String Json)) := [("c16", handleC16)]
+/-- request {cfg, J0, trace}: the continuation of a run after a second `init_rar` (iteration numbers
+    restart): the counting clauses of the property, `Holds.C16Resumed` -/
+def handleC16Resumed (j : Json) : Except String Json := do
+  let c ← getCfg (← j.getObjVal? "cfg")
+  let J0 ← getNat j "J0"
+  let tr ← getArr j "trace"
+  let recs ← tr.mapM (fun r => do
+    let pT ← getOpt r "pT" boolList
+    let pX ← getOpt r "pX" boolList
+    pure ({ stepped := ← getBool r "stepped", iterNb := ← getNat r "iterNb",
+            cntT := if c.kind.hasT then pT.map active else none,
+            cntX := if c.kind.hasX then pX.map active else none } : Rec16))
+  let holds := holdsC16Resumed c J0 recs
+  pure <| Json.mkObj [("holds", Json.bool holds.isNone), ("clause", jOptStr holds)]
+
+def opsC16 : List (String × (Json → Except String Json)) := [("c16", handleC16), ("c16resumed", handleC16Resumed)]
 
 end Jinns.Driver
